@@ -119,6 +119,7 @@ func secondOps(k, x, y string, ttls []string, kvOnly bool) []string {
 	}
 	out = append(out, "get "+k, "del "+k, "ex "+k, "ttl "+k)
 	if !kvOnly {
+		out = append(out, "watch "+k, "start", "stop", "start stop start", "stop stop start start")
 		out = append(out, "exp "+k+" -1", "getl "+k, "app "+k+" "+y, "rem "+k+" "+x, "hset "+k+" f "+y, "hget "+k+" f",
 			"hget "+k+" g", "hall "+k, "hdel "+k+" f", "incr "+k+" 1", "incr "+k+" -3", "gc")
 	}
@@ -261,7 +262,7 @@ func genBurst(r *vc.Rand, thorough bool) []string {
 		// random 2-3 callers × 1-2 calls
 		n := 4
 		if thorough {
-			n = 120
+			n = 80
 		}
 		for i := 0; i < n; i++ {
 			nt := 2 + r.Intn(2)
